@@ -126,9 +126,64 @@ def h_decompose_twice(g, gate, dagger):
     g.fact("op untouched", op.dagger == dagger and all(x is y for x, y in zip(op.p, p_before)))
 
 
+def h_interferometer(g, mesh, perm, dagger, drop_identity):
+    """ops.Interferometer(U, mesh) on a phased permutation U (every non-zero entry carries a symbolic phase; the exact
+    zeros drive the mesh decompositions and the command builder through their special branches): the commands
+    returned by the real decomposition, applied to the real Gaussian backend from an arbitrary state, implement the
+    documented passive transformation a -> U a (daggered: its inverse)"""
+    import strawberryfields as sf
+    from strawberryfields import ops
+    n = len(perm)
+    from symx.symarray import sarray
+    like = fn.zeros((1,), sarray([0]) if g.sym else np.zeros(1))
+    U = fn.zeros((n, n), like) if g.sym else np.zeros((n, n), dtype=complex)
+    for i, j in enumerate(perm):
+        U[i, j] = fn.expi(g.real("ph%d" % i))
+    op = ops.Interferometer(U, mesh=mesh, drop_identity=drop_identity)
+    if dagger:
+        op = op.H
+    prog = sf.Program(n)
+    with prog.context as q:
+        op | tuple(q[m] for m in range(n))
+    prog = prog.compile(compiler="gaussian")
+    names = [type(c.op).__name__ for c in prog.circuit]
+    g.fact("decomposed into beamsplitters, interferometer cells and rotations", set(names) <= {"BSgate", "Rgate", "MZgate"},
+           detail=repr(names))
+    # net passive transformation of the returned commands, each read with its documented matrix
+    A = C.ident(n, like)
+    for c in prog.circuit:
+        Ak, _, _ = doc_spec(type(c.op).__name__, list(c.op.p), [r.ind for r in c.reg], n, like)
+        if c.op.dagger:
+            Ak = fn.conj(Ak).T if type(c.op).__name__ == "MZgate" else doc_spec(type(c.op).__name__, [-c.op.p[0]] + list(c.op.p[1:]),
+                                                                                 [r.ind for r in c.reg], n, like)[0]
+        A = Ak @ A
+    g.eq("Interferometer[%s]%s" % (mesh, ".H" if dagger else ""), A, fn.conj(U).T if dagger else U)
+
+
+def _imods():
+    import strawberryfields.decompositions as dec
+    return list(F.all_modules()) + [dec]
+
+
 def build(ctx):
     n = 3
     mods = F.all_modules
+    import itertools as _it
+    # (command level for rectangular_phase_end / rectangular_symmetric: the builder's tolerance tests on atan2-derived angles
+    # give path-feasibility queries that take a minute each -> outside; their matrix level is in C17)
+    meshes = ["rectangular", "triangular"]
+    ctx.outside += ["Interferometer command builders for rectangular_phase_end / rectangular_symmetric / *_compact / sun_compact meshes "
+                    "(matrix level of the first two: C17), inputs other than 3x3 phased permutations at command level",
+                    "GraphEmbed, BipartiteGraphEmbed, GaussianTransform, Gaussian (Takagi / Williamson / Bloch-Messiah through LAPACK)"]
+    for mesh in meshes:
+        for perm in _it.permutations(range(3)):
+            for dagger in (False,):        # Interferometer is a Decomposition: it has no .H
+                ctx.add("interferometer.%s.%s%s" % (mesh, "".join(map(str, perm)), ".H" if dagger else ""), h_interferometer,
+                        {"mesh": mesh, "perm": list(perm), "dagger": dagger, "drop_identity": True}, modules=_imods,
+                        functions=["ops.Interferometer.__init__", "ops.Interferometer._decompose", "decompositions.%s" % mesh,
+                                   "Gate.decompose", "Compiler.decompose", "GaussianBackend.*"],
+                        bounds={"modes": 3, "unitary": "permutation %s with a symbolic phase on each non-zero entry" % (perm,),
+                                "mesh": mesh, "dagger": dagger}, validate_points=1)
     for gate, (names, k) in GATES.items():
         choices = C.ordered_choices(n, k)
         if not ctx.thorough:
